@@ -865,13 +865,13 @@ fn main() {
             let ntys = generator::all_tys().len() as u64;
             let extra = if thorough { "1500" } else { "60" };
             // class representatives of the differential run first (seed-independent), in workers
-            for family in ["match", "match-order", "float", "char"] {
+            for family in ["match", "match-order", "float", "char", "for"] {
                 let (ended, out) = run_worker_keep_stdout(&["classcorpus", family], Duration::from_secs(300));
                 if let Some(v) = Report::parse_stdout(&out) { rep.merge_json(&v); }
                 if !matches!(ended, Ended::Exit(0, _)) {
                     let last = out.lines().rev().find(|l| l.starts_with("START ")).unwrap_or("").to_string();
                     let name = last.strip_prefix("START classcorpus ").unwrap_or("").to_string();
-                    let reps = match family { "match" => classcorpus::match_corpus(), "match-order" => classcorpus::order_corpus(), "char" => classcorpus::char_corpus(), _ => classcorpus::float_corpus() };
+                    let reps = match family { "match" => classcorpus::match_corpus(), "match-order" => classcorpus::order_corpus(), "char" => classcorpus::char_corpus(), "for" => classcorpus::for_corpus(), _ => classcorpus::float_corpus() };
                     let input = match reps.iter().find(|r| r.name == name) {
                         Some(r) => json!({"src": r.source(), "sexp": sexp(&r.prog), "ty": r.ty.name(), "arity": r.prog.main().params.len(),
                                           "ret": r.ret.name(), "args": r.args[0], "class_representative": r.name, "ended": format!("{ended:?}"),
@@ -974,7 +974,7 @@ fn main() {
                         std::io::stdout().flush().ok();
                         char_args(&mut rep, &mut drv);
                     }
-                    let reps = match args[3].as_str() { "match" => classcorpus::match_corpus(), "match-order" => classcorpus::order_corpus(), "char" => classcorpus::char_corpus(), _ => classcorpus::float_corpus() };
+                    let reps = match args[3].as_str() { "match" => classcorpus::match_corpus(), "match-order" => classcorpus::order_corpus(), "char" => classcorpus::char_corpus(), "for" => classcorpus::for_corpus(), _ => classcorpus::float_corpus() };
                     for r in &reps {
                         println!("START classcorpus {}", r.name);
                         std::io::stdout().flush().ok();
